@@ -380,6 +380,9 @@ func runC05(c *Ctx) {
 				if _, path := fieldChain(v); len(path) >= 2 && path[len(path)-1] == "Enabled" && path[len(path)-2] == "retryCfg" && br {
 					okG = true
 				}
+				if isBackOffEnabledA3(v) && br { // the Enabled flag of a BackOffConfig, whatever the field holding it is called
+					okG = true
+				}
 			}
 			c.Check(okG, "retry sender is installed only when retry is enabled", p.Pos(ci.Pos()), "guarded by retryCfg.Enabled", "retry sender constructed regardless of (or against) the Enabled flag")
 		}
@@ -545,13 +548,27 @@ func runC05(c *Ctx) {
 					okCtx = true
 				}
 			}
+			// the cancel function is deferred, or called explicitly on every path from the derivation to a return
+			explicit := map[ssa.Instruction]bool{}
 			allInstrs(fn, func(in ssa.Instruction) {
 				if d, ok := in.(*ssa.Defer); ok {
-					if ex, ok := d.Call.Value.(*ssa.Extract); ok && ex.Tuple == w.(ssa.Value) && ex.Index == 1 {
+					if ex, ok := strip(d.Call.Value).(*ssa.Extract); ok && ex.Tuple == w.(ssa.Value) && ex.Index == 1 {
 						okCancel = true
 					}
 				}
+				if cl, ok := in.(*ssa.Call); ok {
+					if ex, ok := strip(cl.Call.Value).(*ssa.Extract); ok && ex.Tuple == w.(ssa.Value) && ex.Index == 1 {
+						explicit[in] = true
+					}
+				}
 			})
+			if !okCancel && len(explicit) > 0 {
+				var to []ssa.Instruction
+				for _, r := range returnsOf(fn) {
+					to = append(to, r)
+				}
+				okCancel, _ = mustPassThrough(fn, w.(ssa.Instruction), explicit, to)
+			}
 			c.Check(okCtx && okCancel, "attempt runs under the timeout context; cancel deferred", p.Pos(w.Pos()), "derived ctx forwarded, cancel deferred", fmt.Sprintf("derived context forwarded=%v, cancel deferred=%v", okCtx, okCancel))
 		}
 		if !found {
